@@ -80,11 +80,21 @@ def generate(R, tier, focus):
         # events channel: re-order the SAME catalog object in place after it was evaluated (per-object caches)
         'same_object': channel in ('events', 'cells') and R.random() < 0.4,
         'in_place_array': R.random() < 0.5,
+        # the observed catalog goes through the usual time-window / magnitude filters before it is evaluated
+        'obs_filtered': kind == 'cat' and R.random() < 0.4,
         # gridded world delivered as a forecast file (cells in world order) instead of in memory
         'delivery': 'file' if (kind == 'grid' and cart and R.random() < 0.3) else 'memory',
         # observed catalog delivered through its JSON form (carries its region along)
         'obs_via_json': kind == 'grid' and cart and R.random() < 0.2,
     }
+    if extra['obs_filtered']:
+        # observed events outside the forecast window, which the filters remove again
+        for o in inner['obs']:
+            for k in range(R.randint(1, 3)):
+                ev = gen.gen_event(R, inner['region'], inner['mags'], eid='late%d' % k, start_ms=inner['start_ms'],
+                                   end_ms=inner['end_ms'])[0]
+                ev[1] = R.choice((inner['start_ms'] - R.randint(1, 10 ** 7), inner['end_ms'] + R.randint(0, 10 ** 7)))
+                o['events'].insert(R.randint(0, len(o['events'])), ev)
     return {'engine': 'permsim', 'kind': kind, 'inner': inner, 'channel': channel, 'perm_seed': R.randint(0, 2 ** 31), **extra,
             'tests': tests, 'rng_state': R.randint(0, 2 ** 31 - 1), 'tz': R.choice(TZ_CHOICES)}
 
@@ -287,6 +297,9 @@ def _execute(scn, ctx, store, rng):
                 fw = wb if which == 'base' else wp
                 fc = fw.new_forecast()
                 obs = fw.obs_catalog(t['obs'], fc.region)
+                if scn.get('obs_filtered'):
+                    obs = obs.filter(['origin_time >= %d' % world['start_ms'], 'origin_time < %d' % world['end_ms'],
+                                      'magnitude >= %r' % world['mags']['edges'][0]])
                 r = call(run_cat_test_fc, test, fc, obs, t['seed'])
             outs.append((r, [(c[0], hexf(c[2])) for c in rng.calls if c[0] != 'seed']))
         if outs is None:
